@@ -82,7 +82,16 @@ pub struct Mid {
 #[derive(Serialize, Deserialize, Clone, Debug, PartialEq)]
 #[serde(tag = "op")]
 pub enum Event {
-    Write { node: usize, stmts: Vec<Stmt> },
+    Write {
+        node: usize,
+        stmts: Vec<Stmt>,
+        /// the announcement of this transaction is held back (its detached task is parked
+        /// before it reads the committed rows) until `ReleaseAnnouncements`
+        #[serde(default)]
+        hold: bool,
+    },
+    /// held-back announcements run now - after whatever was committed in between
+    ReleaseAnnouncements,
     Deliver { node: usize, msgs: Vec<MsgKey> },
     /// deliver every pool message visible to `node` and not yet delivered to it
     DeliverAll { node: usize, batch: usize },
@@ -105,6 +114,7 @@ impl Event {
     pub fn kind(&self) -> &'static str {
         match self {
             Event::Write { .. } => "Write",
+            Event::ReleaseAnnouncements => "ReleaseAnnouncements",
             Event::Deliver { .. } => "Deliver",
             Event::DeliverAll { .. } => "DeliverAll",
             Event::Apply { .. } => "Apply",
